@@ -22,6 +22,36 @@ USERS = {
 }
 
 
+def _concrete_counterexample(enc, dec, rank):
+    """('decoder'|'encoder', radices, what was computed, what row-major gives) or None"""
+    import itertools
+    C = Poly.const
+    shapes = {1: [(3,)], 2: [(2, 3), (3, 2)], 3: [(2, 3, 2), (3, 2, 4)], 4: [(2, 3, 2, 2), (2, 2, 3, 2)]}[rank]
+    for shape in shapes:
+        total = 1
+        for x in shape:
+            total *= x
+        for s_ in range(total):
+            # row-major digits of s_
+            want, r = [], s_
+            for n_ in reversed(shape):
+                want.append(r % n_)
+                r //= n_
+            want = tuple(reversed(want))
+            try:
+                ds = SymInterp(dec, {}).run({"nums_length": [C(x) for x in shape], "index_serial": C(s_)})
+                if len(ds) == 1:
+                    got = tuple(int(x.as_const()) for x in ds[0].ret)
+                    if got != want:
+                        return ("decoder", list(shape), "serial index %d is decoded as %s" % (s_, got), want)
+                es = SymInterp(enc, {}).run({"nums_length": [C(x) for x in shape], "index_multi_dimensional": tuple(C(x) for x in want)})
+                if len(es) == 1 and int(es[0].ret.as_const()) != s_:
+                    return ("encoder", list(shape), "multi-index %s is encoded as %d" % (want, int(es[0].ret.as_const())), s_)
+            except (Undecided, AttributeError, TypeError, ValueError):
+                return None
+    return None
+
+
 def run(ctx, rep):
     ix = ctx.ix
     rep.rule("X1", "every user of a multi-index goes through index_serial_from_index_multi_dimensional with the object's own shape, or "
@@ -92,7 +122,14 @@ def run(ctx, rep):
                 ok = len(es) == 1 and fully(es[0].ret, d.defs) == fully(S("s"), d.defs)
             rep.check(ok, "X2", enc, "encoder(decoder(s)) rank %d" % rank, "identity on 0 <= s < prod n", "encoder(decoder(s)) differs from s", node=enc.node)
         except Undecided as e:
-            rep.undecided("X2", enc, "rank %d" % rank, str(e))
+            # the symbolic argument did not go through: look for a concrete counterexample (constant interpretation of the two functions
+            # on small radices); a counterexample refutes the clause, its absence leaves the obligation undecided
+            cex = _concrete_counterexample(enc, dec, rank)
+            if cex is not None:
+                rep.violation("X2", dec if cex[0] == "decoder" else enc, "rank %d" % rank,
+                              "counterexample: radices %s, %s; the row-major convention gives %s" % (cex[1], cex[2], cex[3]), node=(dec if cex[0] == "decoder" else enc).node)
+            else:
+                rep.undecided("X2", enc, "rank %d" % rank, str(e))
     # ---- X3 (shared layout sites)
     from ..layout import check_fill_vs_shape
     OPS = "quara.objects.operators."
